@@ -143,3 +143,10 @@ def run(chk, tier):
         check_init(chk, crate)
     except (Anchor, Unsupported) as e:
         chk.ob("R4", "Hc128Core::from_seed", False, "not established: %s" % e)
+    # R6: nothing else on the public surface writes the table or the counter
+    from .mutators import check_block_mutators
+    try:
+        gk = crate.method(Gen(crate, "Hc128Core").path, "rand_core::block::BlockRngCore", "generate")
+        check_block_mutators(chk, crate, ["Hc128Rng", "Hc128Core"], "R6", [crate.body(gk)["def"]])
+    except Anchor as e:
+        chk.ob("R6", "Hc128Rng|mutators", False, "not established: %s" % e)
